@@ -184,9 +184,15 @@ func (u *Unit) callResolved(s *State, c *ssa.CallCommon, callee *ssa.Function, n
 			}
 		}
 	}
+	var extraPost *FuncContract
 	if fc := u.p.libContract(name, len(args)); fc != nil {
-		u.applyContract(s, fc, nil, name, args, sig, instr, site, pos, k)
-		return
+		if fc.Opts["callback"] == "" {
+			u.applyContract(s, fc, nil, name, args, sig, instr, site, pos, k)
+			return
+		}
+		// a library function that calls back into the module (filepath.Walk): treated as unknown code that
+		// may run the closures it is given; the contract's ensures clauses are assumed about its results
+		extraPost = fc
 	}
 	if callee != nil && u.inModule(callee) {
 		if fc := u.p.contractFor(callee); fc != nil && fc.Opts["inline"] == "" {
@@ -259,29 +265,102 @@ func (u *Unit) callResolved(s *State, c *ssa.CallCommon, callee *ssa.Function, n
 		if u.restricted() {
 			panic(abortUnit{"write set: calls " + name + ", which may write any memory"})
 		}
-		u.havocHeaps(s, "call")
-		u.havocGhost(s)
-		if c != nil {
-			u.havocClosureCells(s, c)
+		u.havocHeapsKeepFresh(s, args)
+		if callee != nil && !u.inModule(callee) {
+			u.havocGhostFor(s, nil, args) // library code: only through the closures it was given
+			if !hasClosureArg(s, args) {
+				u.havocGhost(s)
+			}
+		} else {
+			u.havocGhost(s)
 		}
+		u.havocClosureCellsT(s, args)
 		u.copyBackInterior(s)
 	}
 	if !strings.HasPrefix(name, "fmt.") && !strings.HasPrefix(name, "errors.") {
 		u.note("unmodelled call %s: results unconstrained", name)
 	}
 	res := u.freshResults(s, name, sig)
+	if c == nil || !u.callIsPure(c) {
+		// closures handed to the callee preserve their invariants as long as they return without error;
+		// callees such as filepath.Walk stop at the first error and return it
+		guard := "true"
+		if n := len(res); n > 0 && res[n-1].Sort == "Iface" {
+			guard = fmt.Sprintf("(= (itype %s) 0)", res[n-1].S)
+		}
+		u.assumeClosureInvariants(s, args, guard)
+	}
+	if extraPost != nil {
+		names := map[string]Term{}
+		for i, r := range res {
+			if i < len(extraPost.Results) {
+				names[extraPost.Results[i]] = r
+			}
+		}
+		for i, a := range args {
+			if i < len(extraPost.Params) {
+				names[extraPost.Params[i]] = a
+			}
+		}
+		for _, cl := range extraPost.Clauses {
+			if cl.Kind != "ensures" {
+				continue
+			}
+			env := &Env{u: u, s: s, old: s, names: names, pkg: u.fn.Pkg}
+			g, err := env.formula(cl.Expr)
+			if err != nil {
+				panic(abortUnit{fmt.Sprintf("%s:%d: %v", cl.File, cl.Line, err)})
+			}
+			s.assume(g)
+		}
+		u.usedLib[name] = true
+	}
 	if name == "fmt.Errorf" || name == "errors.New" {
-		s.assume(fmt.Sprintf("(and (not (= (itype %s) 0)) (= (itype %s) tag.plainerror))", res[0].S, res[0].S))
+		// a newly created error value: non-nil and different from every error that existed before
+		id := u.newAddr(s, "errid")
+		s.assume(fmt.Sprintf("(and (= (itype %s) tag.plainerror) (= (ival %s) %s))", res[0].S, res[0].S, id.S))
 	}
 	u.setResult(s, instr, sig, res)
 	k(s)
 }
 
-func (u *Unit) havocGhost(s *State) {
-	for k, g := range s.ghost {
-		if strings.HasPrefix(k, "$watch.") {
+func (u *Unit) havocGhost(s *State) { u.havocGhostFor(s, nil, nil) }
+
+// havocGhostFor havocs the ghost variables the callee (and any closure handed to it) may set. With an
+// unknown callee (callee == nil and no closures) every ghost variable is havocked.
+func (u *Unit) havocGhostFor(s *State, callee *ssa.Function, args []Term) {
+	var may map[string]bool
+	known := callee != nil
+	if known {
+		may = u.p.ghostsSetBy(callee)
+		if may["*"] {
+			known = false
+		}
+	}
+	for _, a := range args {
+		if cl, ok := s.closT[a.S]; ok {
+			m2 := u.p.ghostsSetBy(cl.fn)
+			if m2["*"] {
+				known = false
+			}
+			if may == nil {
+				may = map[string]bool{}
+			}
+			for k := range m2 {
+				may[k] = true
+			}
+		}
+	}
+	keys := make([]string, 0, len(s.ghost))
+	for k := range s.ghost {
+		keys = append(keys, k)
+	}
+	sortStrings(keys)
+	for _, k := range keys {
+		if known && !may[k] {
 			continue
 		}
+		g := s.ghost[k]
 		s.ghost[k] = Term{S: u.fresh("hv.ghost", g.Sort).S, Sort: g.Sort}
 	}
 }
@@ -502,8 +581,8 @@ func (u *Unit) applyContract(s *State, fc *FuncContract, callee *ssa.Function, n
 			if u.restricted() {
 				panic(abortUnit{"write set: calls " + name + ", which may write any memory"})
 			}
-			u.havocHeaps(s, "call")
-			u.havocGhost(s)
+			u.havocHeapsKeepFresh(s, args)
+			u.havocGhostFor(s, callee, args)
 			u.copyBackInterior(s)
 		}
 	}
@@ -553,7 +632,10 @@ func (u *Unit) applyContract(s *State, fc *FuncContract, callee *ssa.Function, n
 		extra["result"] = res[0]
 	}
 	for _, c := range fc.Clauses {
-		if c.Kind == "ensures" || c.Kind == "ensures-bounded" || (c.Kind == "assume" && fc.Lib) {
+		if c.Kind == "defines" {
+			u.usedAssume = appendUnique(u.usedAssume, fmt.Sprintf("%s: defines %s: %s (names a result as a function; sound if the callee is deterministic in the named arguments)", short, c.Label, c.Expr))
+		}
+		if c.Kind == "ensures" || c.Kind == "ensures-bounded" || c.Kind == "defines" || (c.Kind == "assume" && fc.Lib) {
 			if c.Kind == "ensures-bounded" {
 				u.usedBounded[c.Label+" ("+short+")"] = c.Callee
 			}
@@ -766,6 +848,14 @@ func (u *Unit) appendOp(s *State, c *ssa.CallCommon, instr *ssa.Call) {
 	s.assume(fmt.Sprintf("(>= %s (+ (sl_len %s) %s))", newcap.S, sl.S, n))
 	res := Term{S: fmt.Sprintf("(mk_slice %s (sl_off %s) (+ (sl_len %s) %s) (ite %s (sl_cap %s) %s))", region, sl.S, sl.S, n, inplace.S, sl.S, newcap.S), Sort: "Slice"}
 	if instr != nil {
+		if known {
+			// at-call clauses may speak about appends: a0 is the slice, a1.. the appended elements
+			as := []Term{sl}
+			for _, e := range elems {
+				as = append(as, Term{S: e, Sort: so, T: st.Elem()})
+			}
+			u.atCall(s, "append", as, instr, instr.Pos())
+		}
 		res.T = instr.Type()
 		r := u.define(s, "appended", res)
 		s.regs[instr] = r
@@ -964,3 +1054,153 @@ func (u *Unit) expandVariadic(s *State, c *ssa.CallCommon, args []Term) ([]Term,
 }
 
 var ifacePtrRe = regexp.MustCompile(`^\(mk_iface \S+ \(box\.Int (\S+)\)\)$`)
+
+func appendUnique(xs []string, x string) []string {
+	for _, y := range xs {
+		if y == x {
+			return xs
+		}
+	}
+	return append(xs, x)
+}
+
+// assumeClosureInvariants: code that was handed a closure may have called it any number of times; each call
+// preserves the closure's invariants (proved in the closure's own unit), so they hold afterwards.
+func (u *Unit) assumeClosureInvariants(s *State, args []Term, guard string) {
+	for _, a := range args {
+		cl, ok := s.closT[a.S]
+		if !ok {
+			continue
+		}
+		fc := u.p.contractFor(cl.fn)
+		if fc == nil {
+			continue
+		}
+		for i, fv := range cl.fn.FreeVars {
+			if i < len(cl.bindings) {
+				s.addrs[fv] = u.addrOf(s, cl.bindings[i])
+			}
+		}
+		for _, c := range fc.Clauses {
+			if c.Kind != "closure-invariant" {
+				continue
+			}
+			env := &Env{u: u, s: s, old: s, names: map[string]Term{}, fn: cl.fn, pkg: cl.fn.Pkg}
+			g, err := env.formula(c.Expr)
+			if err != nil {
+				panic(abortUnit{fmt.Sprintf("%s:%d: %v", c.File, c.Line, err)})
+			}
+			s.assume(fmt.Sprintf("(=> %s %s)", guard, g))
+		}
+		for _, fv := range cl.fn.FreeVars {
+			delete(s.addrs, fv)
+		}
+	}
+}
+
+// havocClosureCellsT: closures (identified by their terms) passed to unknown code may write their captured cells.
+func (u *Unit) havocClosureCellsT(s *State, args []Term) {
+	for _, a := range args {
+		cl, ok := s.closT[a.S]
+		if !ok {
+			continue
+		}
+		for i, b := range cl.bindings {
+			if i >= len(cl.fn.FreeVars) || !freeVarWritten(cl.fn, cl.fn.FreeVars[i]) {
+				continue // the closure never assigns this captured variable
+			}
+			if al, ok := b.(*ssa.Alloc); ok && !u.escapes(al) {
+				et := cellElemType(al)
+				nv := u.freshT("hv."+cellName(al), et)
+				u.typeFacts(s, nv, et)
+				s.cells[al] = nv
+			}
+		}
+	}
+}
+
+// freeVarWritten: does the closure (or a closure nested in it) store to the captured variable?
+func freeVarWritten(fn *ssa.Function, fv *ssa.FreeVar) bool {
+	for _, b := range fn.Blocks {
+		for _, in := range b.Instrs {
+			switch x := in.(type) {
+			case *ssa.Store:
+				root := x.Addr
+				for {
+					if fa, ok := root.(*ssa.FieldAddr); ok {
+						root = fa.X
+						continue
+					}
+					if ia, ok := root.(*ssa.IndexAddr); ok {
+						root = ia.X
+						continue
+					}
+					break
+				}
+				if root == fv {
+					return true
+				}
+			case *ssa.MakeClosure:
+				for _, bnd := range x.Bindings {
+					if bnd == fv {
+						return true // handed on to a nested closure: assume it may be written
+					}
+				}
+			}
+		}
+	}
+	return false
+}
+
+func hasClosureArg(s *State, args []Term) bool {
+	for _, a := range args {
+		if _, ok := s.closT[a.S]; ok {
+			return true
+		}
+	}
+	return false
+}
+
+// havocHeapsKeepFresh: a callee cannot reach objects that were allocated by this unit and have not been handed
+// out (stored into memory, passed to impure code, captured by a closure that is passed on). Their contents survive.
+func (u *Unit) havocHeapsKeepFresh(s *State, args []Term) {
+	// pointers that escape with this call
+	for _, a := range args {
+		u.markEscaped(s, a.S)
+		if cl, ok := s.closT[a.S]; ok {
+			for _, b := range cl.bindings {
+				if al, ok := b.(*ssa.Alloc); ok {
+					if v, ok := s.cells[al]; ok {
+						u.markEscaped(s, v.S)
+					}
+				}
+			}
+		}
+	}
+	type keep struct {
+		at  allocType
+		val Term
+	}
+	var keeps []keep
+	for _, at := range s.allocTypes {
+		if s.escaped[at.ptr] {
+			continue
+		}
+		keeps = append(keeps, keep{at, u.load(s, AddrDeref{Term{S: at.ptr, Sort: "Int"}, at.elem})})
+	}
+	u.havocHeaps(s, "call")
+	saved := u.fc
+	u.fc = nil
+	for _, k := range keeps {
+		u.store(s, AddrDeref{Term{S: k.at.ptr, Sort: "Int"}, k.at.elem}, k.val)
+	}
+	u.fc = saved
+}
+
+func (u *Unit) markEscaped(s *State, term string) {
+	for _, at := range s.allocTypes {
+		if strings.Contains(term, at.ptr) {
+			s.escaped[at.ptr] = true
+		}
+	}
+}
